@@ -84,6 +84,41 @@ def option_string(opts, workdir, api=None):
     return ','.join(parts)
 
 
+_trace_path = None
+
+
+def enable_trace():
+    """Turn the /repo hooks on for THIS process.  Events are read back with read_trace()."""
+    global _trace_path
+    import sys as _sys
+    if _trace_path is None:
+        fd, _trace_path = tempfile.mkstemp(prefix='gapicverif-trace-', suffix='.ndjson')
+        os.close(fd)
+        os.environ[GUARD] = _trace_path
+        import atexit
+        atexit.register(lambda p=_trace_path, pid=os.getpid(): os.getpid() == pid and os.path.exists(p) and os.remove(p))
+    # the call sites test `verif_trace.ENABLED` dynamically, so this also works when gapic is already imported
+    from gapic.utils import verif_trace
+    verif_trace.ENABLED = True
+    return _trace_path
+
+
+def read_trace(reset=True):
+    """events emitted by the hooks in this process since the last reset."""
+    if _trace_path is None:
+        return []
+    from gapic.utils import verif_trace
+    if verif_trace._fh is not None:
+        verif_trace._fh.flush()
+    with open(_trace_path) as f:
+        ev = [json.loads(l) for l in f if l.strip()]
+    if reset:
+        if verif_trace._fh is not None:
+            verif_trace._fh.close(); verif_trace._fh = None
+        open(_trace_path, 'w').close()
+    return ev
+
+
 def generate_bytes(req_bytes):
     """In-process run of the real CLI entry point on request bytes -> CodeGeneratorResponse."""
     from gapic.cli import generate as g
